@@ -402,6 +402,9 @@ def exec_tree(ctx, case):
             ctx.count("trees_measured_under_custom_column_names")
             if r:
                 raise Mismatch("custom-column-names", f"morphometrics: {r}")
+            r = G.same_under_ambient(lambda: _feature_bundle(tree), pick=case["seed"] // 4)
+            if r:
+                raise Mismatch("ambient-state", f"morphometrics: {r}")
     except Mismatch as m:
         ctx.violation(m.mech, m.detail + f" | n={n}, shape={case['tree']['shape']}, geom="
                                          f"{case['tree']['geom']}", case)
